@@ -124,8 +124,8 @@ def for_loop(interp, st, fr, node, it, lc, key):
             env0 = _mk_env(interp, st, fr, m, old, "V", empty)
             _check(interp, st, fr, lc, env0, key, "establish")
             V = st.fresh("V", z3.ArraySort(ksort, z3.BoolSort()))
-            kq = z3.Const("kq!" + st.fresh_name("kq"), ksort)
-            st.assume(z3.ForAll([kq], z3.Implies(z3.Select(V, kq), z3.Select(m.dom, kq))))
+            # (V is a subset of dom(M); only its consequence for the chosen key is needed, so the
+            #  path condition stays quantifier-free and counter-models can be produced)
             env = _mk_env(interp, st, fr, m, old, "V", V)
             _install(interp, st, fr, lc, env, modified)
             k = st.fresh("k", ksort)
